@@ -66,13 +66,14 @@ func history(fam string, src string, o *RawObs) map[string]interface{} {
 	sl := func(s RawSl) jsl { return jsl{s.Nil, ints(s.Es)} }
 	switch fam {
 	case "compose", "fmaperr":
-		return map[string]interface{}{"calls": jcalls(o.Calls), "ret": ints(o.Ret), "err": o.Err, "thunknil": o.ThunkNil}
+		return map[string]interface{}{"calls": jcalls(o.Calls), "ret": ints(o.Ret), "err": o.Err, "thunknil": o.ThunkNil,
+			"pre": jcalls(o.Pre), "ret2": ints(o.Ret2)}
 	case "joinerr", "toerror":
 		return map[string]interface{}{"calls": jcalls(o.Calls), "ret": ints(o.Ret), "err": o.Err}
 	case "traverse":
 		return map[string]interface{}{"calls": jcalls(o.Calls), "out": sl(o.Out), "err": o.Err}
 	case "plumb":
-		return map[string]interface{}{"calls": jcalls(o.Calls), "ret": ints(o.Ret)}
+		return map[string]interface{}{"calls": jcalls(o.Calls), "ret": ints(o.Ret), "early": o.Early}
 	case "fmap":
 		return map[string]interface{}{"calls": jcalls(o.Calls), "out": sl(o.Out), "inb": sl(o.InB), "ina": sl(o.InA)}
 	case "fmapstr":
